@@ -1,5 +1,6 @@
 """C02 — binary <-> JSON round trip is lossless and the binary form is canonical."""
 import json
+from .. import sweeps
 from ..common import Check, hx, tags_tok
 from .. import jsongen, gen
 
@@ -99,4 +100,5 @@ def run():
             c.violation('oracle', 'serializer did not return on invalid UTF-8 content', [l])
         if a != b:
             c.violation('corr', 'invalid-utf8 serializer: impl %s model %s' % (a[-40:], b[-40:]), [l], found=False)
+    sweeps.cpt_sweep(c)
     c.finish()
